@@ -339,6 +339,8 @@ impl Property for C10 {
                                     Err(iroh_docs::net::AcceptError::Abort { namespace, reason, .. }) => format!("aborted {} {}", hex(namespace.as_bytes()), reason_num(*reason)),
                                     Err(_) => "failed".to_string(),
                                 };
+                                // the document `handle_connection` would name if closing the streams failed now
+                                let res_s = format!("{res_s},names={}", state.namespace().map(|n| hex(n.as_bytes())).unwrap_or("none".into()));
                                 let out = std::panic::catch_unwind(std::panic::AssertUnwindSafe(|| state.into_outcome()));
                                 let out_s = match out {
                                     Ok(o) => format!("{}/{}", o.num_recv, o.num_sent),
@@ -485,6 +487,12 @@ impl Property for C10 {
                     lines.push(Line::oracle("sconst ended-cleanly", if clean { "ended-cleanly".to_string() } else { format!("not-clean:{}", line.split(' ').next().unwrap_or("")) }));
                     if let Some(m) = mirror {
                         lines.push(Line::oracle("sconst mirror=1", m));
+                    }
+                    if is_bob && line.starts_with("result=aborted") {
+                        // specification (where C10 meets C11): a declined request is reported as the decline; should
+                        // closing the streams fail afterwards, the error names no document (the live actor would take
+                        // a named error for the end of the session that holds the slot)
+                        lines.push(Line::oracle("sconst declined-request-names-no-document", if line.contains(",names=none") { "declined-request-names-no-document" } else { "declined-request-names-the-document" }));
                     }
                     // the store afterwards (declined / failed sessions must not have changed it beyond the model)
                     let mut store = match shut {
